@@ -431,12 +431,15 @@ func (d *badgerNodeDB) GetWriteLog(ctx context.Context, startRoot, endRoot node.
 								return node.Root{}, nil, nil
 							}
 
-							key := nextItem.logKeys[index]
+							// The path was discovered from the end root towards the start root, so
+							// the write logs need to be streamed in reverse order of discovery.
+							pos := len(nextItem.logKeys) - 1 - index
+							key := nextItem.logKeys[pos]
 							root := node.Root{
 								Namespace: endRoot.Namespace,
 								Version:   endRoot.Version,
-								Type:      nextItem.logRoots[index].Type(),
-								Hash:      nextItem.logRoots[index].Hash(),
+								Type:      nextItem.logRoots[pos].Type(),
+								Hash:      nextItem.logRoots[pos].Hash(),
 							}
 
 							item, err := tx.Get(key)
